@@ -427,6 +427,11 @@ int main(int argc, char** argv) {
     printf("usingz=%d guards=%u static_bytes=%zu lib_base=%#" PRIx64 "\n", work_has_usingz(), rt_num_guards(), rt_static_bytes(), rt_lib_base());
     return 0;
   }
+  if (cmd == "pcs" && argc >= 3) {     // every instrumented edge of the library image (offsets), for the reach report
+    std::ofstream f(argv[2], std::ios::binary); uint32_t n = rt_num_guards();
+    for (uint32_t g = 1; g <= n; ++g) { uint64_t pc = rt_guard_pc(g); f.write((const char*)&pc, 8); }
+    return 0;
+  }
   if (cmd == "exec" && argc >= 3) {
     bool enumerate = false; const char* detail = nullptr; const char* outplan = nullptr;
     for (int k = 3; k < argc; ++k) { if (!strcmp(argv[k], "--enumerate")) enumerate = true; else if (!strcmp(argv[k], "--detail") && k + 1 < argc) detail = argv[++k]; else if (!strcmp(argv[k], "--out") && k + 1 < argc) outplan = argv[++k]; }
